@@ -179,7 +179,112 @@ def inflight(rng):
     return {"cfg": _cfg(rng, n), "ops": ops}
 
 
-FAMILIES = {"failwin": failwin, "fanin": fanin, "inflight": inflight}
+def holdcell(rng):
+    """One side is left waiting for a revoke_and_ack while fee updates, HTLCs at the reported limit,
+    removals and crossing HTLCs from the other side pile up (holding cell / concurrent updates); then
+    everything is released (C01: limits exact, no protocol error on honest traffic, both sides agree)."""
+    a = rng.choice([0, 1])
+    b = 1 - a
+    value = rng.choice([100000, 1000000])
+    cfg = {"nodes": 2, "chan_type": rng.choice(TYPES), "value": value,
+           "push": rng.choice([0, value * 100, value * 500, value * 900]), "feerate": rng.choice([253, 253, 1000])}
+    ops = []
+    npay = 0
+    inbound_to = {0: [], 1: []}
+    for _ in range(rng.randrange(0, 3)):
+        s_, d_ = rng.choice([(0, 1), (1, 0)])
+        ops.append({"op": "send", "from": s_, "to": d_, "amt": rng.choice(["big", "justabove", "half"])})
+        inbound_to[d_].append(npay)
+        npay += 1
+    ops.append({"op": "deliver_all"})
+    if npay and rng.random() < 0.5:
+        k = rng.randrange(npay)
+        ops += [{"op": "claim", "pay": k}, {"op": "deliver_all"}]
+    # a starts a commitment dance and is left waiting for the revocation
+    ops.append({"op": "send", "from": a, "to": b, "amt": rng.choice(["big", "justabove", "dust", "half"])})
+    inbound_to[b].append(npay)
+    npay += 1
+    ops += [{"op": "deliver", "from": a, "to": b}] * rng.randrange(0, 3)
+    for _ in range(rng.randrange(1, 5)):
+        r = rng.random()
+        if r < 0.3:
+            ops.append({"op": "fee", "node": 0, "feerate": rng.choice([253, 500, 1000, 2000, 2500, 5000, 10000])})
+        elif r < 0.6:
+            ops.append({"op": "send", "from": a, "to": b, "amt": rng.choice(["limit", "limit", "half", "big", "justabove", "dust-edge"])})
+            inbound_to[b].append(npay)
+            npay += 1
+        elif r < 0.85:
+            for _ in range(rng.choice([1, 2, 2, 3])):
+                ops.append({"op": "send", "from": b, "to": a, "amt": rng.choice(["justabove", "justabove", "big", "limit", "dust"])})
+                inbound_to[a].append(npay)
+                npay += 1
+        elif inbound_to[a]:
+            ops.append({"op": rng.choice(["claim", "fail"]), "pay": rng.choice(inbound_to[a])})
+    ops += _deliveries(rng, [(0, 1), (1, 0)], rng.randrange(0, 7))
+    if rng.random() < 0.3:
+        ops.append({"op": "send", "from": rng.choice([0, 1]), "to": 0, "amt": "limit"})
+        ops[-1]["to"] = 1 - ops[-1]["from"]
+        npay += 1
+    # (timer ticks may have made a node drop a peer that owes it a response)
+    ops += [{"op": "reconnect", "a": 0, "b": 1}, {"op": "deliver_all"}]
+    for k in range(npay):
+        ops.append({"op": "claim" if rng.random() < 0.6 else "fail", "pay": k})
+        if rng.random() < 0.5:
+            ops.append({"op": "deliver_all"})
+    ops += [{"op": "reconnect", "a": 0, "b": 1}, {"op": "deliver_all"}, {"op": "proj", "final": True}]
+    return {"cfg": cfg, "ops": ops}
+
+
+def stalehold(rng):
+    """A - B - C.  A forward (or B's own payment) waits in the holding cell of B-C (B is waiting for C's
+    revoke_and_ack) when B's manager is written; B-C's monitor then moves on without freeing the holding
+    cell; B dies and restarts from that manager: B-C is closed from the monitor and whatever sat in the
+    holding cell must be failed back / reported failed, everything else must still resolve (C10)."""
+    ops = []
+    npay = 0
+    # something C pays B (or through B) so that B can learn a preimage later
+    src_in = rng.choice([(2, 1), (2, 0)])
+    ops += [{"op": "send", "from": src_in[0], "to": src_in[1], "amt": rng.choice(["big", "justabove"])}, {"op": "deliver_all"}]
+    pay_in = npay
+    npay += 1
+    # B starts a dance on B-C and is left waiting for C's revocation
+    if rng.random() < 0.7:
+        ops.append({"op": "send", "from": 1, "to": 2, "amt": rng.choice(["big", "justabove", "dust"])})
+        npay += 1
+    else:
+        ops.append({"op": "send", "from": 0, "to": 2, "amt": "big"})
+        npay += 1
+        ops += [{"op": "deliver", "from": 0, "to": 1}] * 2 + [{"op": "deliver", "from": 1, "to": 0}] * 2 + \
+               [{"op": "deliver", "from": 0, "to": 1}, {"op": "forward", "node": 1}]
+    ops += [{"op": "deliver", "from": 1, "to": 2}] * rng.choice([0, 1, 2, 2])
+    # what ends up in the holding cell
+    for _ in range(rng.choice([1, 1, 2])):
+        if rng.random() < 0.7:
+            ops.append({"op": "send", "from": 0, "to": 2, "amt": rng.choice(["big", "justabove", "dust"])})
+            npay += 1
+            ops += [{"op": "deliver", "from": 0, "to": 1}] * 2 + [{"op": "deliver", "from": 1, "to": 0}] * 2 + \
+                   [{"op": "deliver", "from": 0, "to": 1}, {"op": "forward", "node": 1}]
+        else:
+            ops.append({"op": "send", "from": 1, "to": 2, "amt": rng.choice(["big", "justabove"])})
+            npay += 1
+    ops.append({"op": "save", "node": 1})
+    # B-C's monitor moves on
+    r = rng.random()
+    if r < 0.6:
+        ops.append({"op": "claim", "pay": pay_in})
+        if src_in[1] == 0:
+            ops += [{"op": "deliver", "from": 0, "to": 1}] * rng.choice([1, 2])
+    elif r < 0.8:
+        ops += [{"op": "deliver", "from": 2, "to": 1}]
+    else:
+        ops.append({"op": "fail", "pay": pay_in})
+    ops += _deliveries(rng, [(0, 1), (1, 0)], rng.randrange(0, 3))
+    ops.append({"op": "crash", "node": 1, "mgr": rng.choice(["saved", "saved", 1]), "mon": rng.choice(["latest", "latest", "random"])})
+    ops += _wind_down(npay, rng, [(0, 1), (1, 2)])
+    return {"cfg": _cfg(rng, 3), "ops": ops}
+
+
+FAMILIES = {"failwin": failwin, "fanin": fanin, "inflight": inflight, "holdcell": holdcell, "stalehold": stalehold}
 
 
 def make(rng, family, count):
